@@ -490,6 +490,34 @@ def rule_enums(repo, rep):
             ok = norm(default).endswith(".name") or str_is_name
             rep.check(ok, "C13-b", "ethosu/vela/architecture_features.py:ArchitectureFeatures._get_vela_config", f"{ecls}[_read_config(.., {norm(sub.slice.args[1])}, {norm(default)})]",
                       f"str({norm(default)}) is not a member name of {ecls} (plain Enum): an absent key ends in an uncaught KeyError")
+    # a configuration *value* used as an enum member name: the lookup is guarded by a membership test that raises a VelaError,
+    # and the default handed to _read_config is itself a member name
+    from ..cfg import cfg_of as _cfg_of
+
+    n_lk = 0
+    for q_, fn_ in af.functions.items():
+        if not q_.startswith("ArchitectureFeatures."):
+            continue
+        cfgvals = {norm(s_.targets[0]) for s_ in ast.walk(fn_) if isinstance(s_, ast.Assign) and len(s_.targets) == 1 and isinstance(s_.value, ast.Call) and call_name(s_.value) == "self._read_config"}
+        if not cfgvals:
+            continue
+        c_ = _cfg_of(fn_)
+        for sub in ast.walk(fn_):
+            if isinstance(sub, ast.Subscript) and isinstance(sub.value, ast.Name) and isinstance(sub.slice, ast.Name) and norm(sub.slice) in cfgvals and isinstance(sub.ctx, ast.Load):
+                ecls, var = sub.value.id, sub.slice.id
+                node = c_.node_of(sub)
+                guarded = False
+                for t in c_.nodes[3:]:
+                    if t.kind == "test" and node is not None and c_.dominates(t.id, node) and norm(t.expr) in (f"{var} not in {ecls}.__members__", f"{var} in {ecls}.__members__"):
+                        bad_side = True if "not in" in str(norm(t.expr)) else False
+                        raises = all(any(isinstance(x, ast.Raise) for x in ast.walk(c_.nodes[b].stmt)) if c_.nodes[b].stmt is not None else False for b in c_.branch_succ(t.id, bad_side))
+                        guarded = raises and not any(b == node or c_.path_avoiding(b, node, [t.id]) for b in c_.branch_succ(t.id, bad_side))
+                n_lk += 1
+                rep.check(guarded, "C13-b", f"ethosu/vela/architecture_features.py:{q_}", f"{ecls}[{var}] (a name read from the configuration file) is reached only after `{var} in {ecls}.__members__` held",
+                          "an unknown name in the configuration file ends in an uncaught KeyError")
+                dflt = [s_.value.args[2] for s_ in ast.walk(fn_) if isinstance(s_, ast.Assign) and norm(s_.targets[0]) == var and isinstance(s_.value, ast.Call) and len(s_.value.args) >= 3]
+                rep.check(bool(dflt) and all(norm(d_).endswith(".name") for d_ in dflt), "C13-b", f"ethosu/vela/architecture_features.py:{q_}", f"the default for {var} is a member name (`.name`)",
+                          str([str(norm(d_)) for d_ in dflt]))
     rep.floor("C13-b", 8)
 
 
